@@ -1223,7 +1223,7 @@ def planck_exitance(wave, temp, waveunit='nm', valueunit='wlam'):
 
     """
     # convert wave to meters
-    wave = wave * Unit(waveunit).to('meter')
+    wave = np.asarray(wave) * Unit(waveunit).to('meter')
 
     # compute flux in W m^-2 sr^-1 m^-1
     flux = 2*np.pi*H*C**2/(wave**5*(np.exp(H*C/(wave*K*temp))-1))
@@ -1263,7 +1263,7 @@ def planck_radiance(wave, temp, waveunit='nm', valueunit='wlam'):
 
     """
     # convert wave to meters
-    wave = wave * Unit(waveunit).to('meter')
+    wave = np.asarray(wave) * Unit(waveunit).to('meter')
 
     # compute flux in W m^-2 m^-1
     flux = 2*H*C**2/(wave**5*(np.exp(H*C/(wave*K*temp))-1))
